@@ -3,6 +3,7 @@ import ast
 
 from .. import ctx as ctxmod
 from ..src import own_nodes, norm
+from ..cfg import cfg_of
 from ..report import AnalysisError
 from . import levels, forwarding, c10
 
@@ -198,47 +199,102 @@ def run(chk):
     # ---- D
     c10.admission(chk, c, 'C05-D')
 
-    # ---- K
+    # ---- K  (path conditions of the two refusals, compared on a finite grid of counts and bounds)
+    from .. import pathcond
+    from . import pat
+    import itertools
     can = ix.func('core.ElementList._can_add_child')
-    guard = None
+    raises = [n for n in own_nodes(can.node) if isinstance(n, ast.Raise) and 'MaxChildLimitReached' in norm(n)]
+    if not raises:
+        raise AnalysisError('_can_add_child: the MaxChildLimitReached refusal was not found')
+    g = cfg_of(can)
+    paths = []
+    for r in raises:
+        paths += pathcond.conditions(g, g.node_for(r))
+    # symbols: the current number of same-named children, and the upper bound unpacked from the repetitions table
+    counts = sorted({norm(x) for cs in paths for t, _ in cs for x in ast.walk(t)
+                     if isinstance(x, ast.Call) and norm(x.func) == 'len'})
+    maxes = set()
     for n in own_nodes(can.node):
-        if isinstance(n, ast.If) and any(isinstance(x, ast.Raise) and 'MaxChildLimitReached' in norm(x) for x in n.body):
-            guard = n
-    if guard is None:
-        raise AnalysisError('_can_add_child: the MaxChildLimitReached guard was not found')
-    gt = norm(guard.test)
-    import re
-    m = re.match(r"^len\(self\.indexes\.get\(child\.name, \[\]\)\) \+ 1 > int\((\w+)\) and \(?(\w+) > -1\)?$", gt)
-    ok_attach = bool(m) and m.group(1) == m.group(2)
-    chk.ob('C05-K', 'attach guard: count + 1 > max and max > -1', ok_attach,
-           'the cardinality guard of _can_add_child is `%s`' % gt, '%s:%d' % (can.module.relpath, guard.lineno),
-           key='C05-K|attach')
+        if isinstance(n, ast.Assign) and isinstance(n.targets[0], ast.Tuple) and len(n.targets[0].elts) == 2 and \
+                'repetitions' in norm(n.value):
+            maxes.add(norm(n.targets[0].elts[1]))
+    if len(counts) != 1 or len(maxes) != 1:
+        raise AnalysisError('_can_add_child: count / bound symbols of the cardinality guard not recognised (%s / %s)' % (
+            counts, sorted(maxes)))
+    cnt, mx = counts[0], sorted(maxes)[0]
+    # the counted collection must be the by-name index entry of the child being attached
+    cnode = [x for cs in paths for t, _ in cs for x in ast.walk(t) if isinstance(x, ast.Call) and norm(x) == cnt][0]
+    counted = norm(pat.inline_locals(cnode.args[0], can.node)) if cnode.args else ''
+    ok_cnt = counted in ('self.indexes.get(child.name, [])', 'self.indexes.get(child.name, ())', 'self.indexes[child.name]',
+                         'self.indexes.get(child.name) or []')
+    chk.ob('C05-K', 'attach guard counts the children listed under the child\'s name', ok_cnt,
+           'the guard counts `%s`, not the by-name index entry: the bound is not enforced for what is actually listed' % counted[:80],
+           '%s:%d' % (can.module.relpath, raises[0].lineno), key='C05-K|counted')
+    sub = lambda e: pat.inline_locals(e, can.node) if isinstance(e, ast.Name) and norm(e) not in (cnt, mx) else None
+    atoms = pathcond.free_atoms(paths, {cnt: 0, mx: 0}, sub)
+    grid = [(k, m) for k in range(0, 5) for m in (-1, 0, 1, 2, 3)]
+    want = {(k, m): (m > -1 and k + 1 > m) for k, m in grid}
+    shapes = {}
+    try:
+        for vals in itertools.product((False, True), repeat=len(atoms)):
+            A = dict(zip(atoms, vals))
+            got = tuple(pathcond.holds(paths, {cnt: k, mx: m}, A, sub) for k, m in grid)
+            shapes.setdefault(got, []).append(A)
+    except pathcond.Unknown as e_:
+        raise AnalysisError('_can_add_child: cardinality guard not evaluable (%s)' % e_)
+    never = tuple(False for _ in grid)
+    expected = tuple(want[p_] for p_ in grid)
+    other = [s_ for s_ in shapes if s_ not in (never, expected)]
+    ok_attach = expected in shapes and not other
+    detail = ''
+    if not ok_attach:
+        bad = other[0] if other else never
+        diff = [grid[i] for i in range(len(grid)) if bad[i] != expected[i]][:4]
+        detail = 'the attach guard refuses under a different condition than `count + 1 > max and max > -1`, e.g. for ' \
+                 '(count, max) = %s' % diff
+    chk.ob('C05-K', 'attach guard: refuses iff count + 1 > max and max > -1', ok_attach, detail,
+           '%s:%d' % (can.module.relpath, raises[0].lineno), key='C05-K|attach')
+    # the guard is consulted under STRICT only, and always under STRICT
+    strict_atoms = [a_ for a_ in atoms if 'is_strict' in a_]
+    ok = bool(strict_atoms) and expected in shapes and all(A[strict_atoms[0]] for A in shapes.get(expected, []))
+    chk.ob('C05-K', 'the attach guard is enforced under STRICT', ok, 'level atoms on the refusing paths: %s' % strict_atoms,
+           '%s:%d' % (can.module.relpath, raises[0].lineno), key='C05-K|strict')
+
     vv = ix.func('validation.Validator.validate')
     cr = vv.nested.get('_check_repetitions')
     if cr is None:
         raise AnalysisError('validator closure _check_repetitions not found')
-    over = [n for n in own_nodes(cr.node) if isinstance(n, ast.If) and any(
-        isinstance(b, ast.Expr) and 'limit exceeded' in norm(b) for b in n.body)]
+    over = [n for n in own_nodes(cr.node) if isinstance(n, ast.Expr) and isinstance(n.value, ast.Call) and
+            'limit exceeded' in norm(n).lower()]
     ok_val = False
-    detail = 'no "Child limit exceeded" branch'
+    detail = 'no "Child limit exceeded" report'
     if over:
-        t = norm(over[0].test)
-        bctx = forwarding.branch_context(over[0])
-        # `elif children_num > max_repetitions` under `max_repetitions != -1`
-        chain = bctx
-        p_ = getattr(over[0], '_parent', None)
-        while p_ is not None and not isinstance(p_, (ast.FunctionDef, ast.AsyncFunctionDef)):
-            if isinstance(p_, ast.If):
-                chain += ' / ' + norm(p_.test) + ' / ' + forwarding.branch_context(p_)
-            p_ = getattr(p_, '_parent', None)
-        ok_val = t == 'children_num > max_repetitions' and 'max_repetitions != -1' in chain
-        detail = '`%s` under `%s`' % (t, chain)
-    chk.ob('C05-K', 'validator: count > max under max != -1', ok_val, detail, cr.loc, key='C05-K|validator')
-    # the strict guard is consulted under STRICT
-    gctx = forwarding.branch_context(guard)
-    ok = 'is_strict' in gctx and gctx.endswith('[true]') and not gctx.startswith('not ')
-    chk.ob('C05-K', 'the attach guard is enforced under STRICT', ok, 'guard runs under `%s`' % forwarding.branch_context(guard),
-           '%s:%d' % (can.module.relpath, guard.lineno), key='C05-K|strict')
+        g2 = cfg_of(cr)
+        paths2 = []
+        for o in over:
+            paths2 += pathcond.conditions(g2, g2.node_for(o))
+        nsym = msym = xsym = None
+        for n in own_nodes(cr.node):
+            if isinstance(n, ast.Assign) and isinstance(n.targets[0], ast.Tuple) and len(n.targets[0].elts) == 2 and \
+                    norm(n.value) in cr.params:
+                msym, xsym = norm(n.targets[0].elts[0]), norm(n.targets[0].elts[1])
+            if isinstance(n, ast.Assign) and isinstance(n.value, ast.Call) and norm(n.value.func) == 'len' and \
+                    isinstance(n.targets[0], ast.Name):
+                nsym = n.targets[0].id
+        if None in (nsym, msym, xsym):
+            raise AnalysisError('_check_repetitions: count / cardinality symbols not recognised')
+        sub2 = lambda e: pat.inline_locals(e, cr.node) if isinstance(e, ast.Name) and norm(e) not in (nsym, msym, xsym) else None
+        grid2 = [(k, lo, hi) for k in range(0, 6) for hi in (-1, 0, 1, 2, 3) for lo in range(0, 4) if hi == -1 or lo <= hi]
+        try:
+            bad = [(k, lo, hi) for k, lo, hi in grid2
+                   if pathcond.holds(paths2, {nsym: k, msym: lo, xsym: hi}, None, sub2) != (hi != -1 and k > hi)]
+        except pathcond.Unknown as e_:
+            raise AnalysisError('_check_repetitions: overflow condition not evaluable (%s)' % e_)
+        ok_val = not bad
+        detail = '' if ok_val else 'the validator reports an overflow under a different condition than `count > max and max != -1`, ' \
+                                   'e.g. for (count, min, max) = %s: attach-time and validation-time cardinality disagree' % bad[:4]
+    chk.ob('C05-K', 'validator: overflow reported iff count > max and max != -1', ok_val, detail, cr.loc, key='C05-K|validator')
 
     # ---- V
     raw = levels.raw_param_level_tests(c)
